@@ -136,23 +136,31 @@ func (w *KafkaWriter) writingLoop() {
 	for {
 		select {
 		case <-w.batchingLoopDoneCh:
+			// The batching loop pushed its last message before signalling: flush what is still buffered, otherwise
+			// events accepted before Close() would be dropped.
+			for w.messageBuffer.Length() > 0 {
+				w.writeBatch(w.messageBuffer.PopMultiple(100))
+			}
 			w.runningWorkers.Done()
 			return
 		default:
-			messagesToSend := w.messageBuffer.PopMultiple(100)
-			if len(messagesToSend) == 0 {
-				continue
-			}
-
-			metric := w.newMetric(KAFKAWRITER)
-			metric.AddValue("messages_sent", len(messagesToSend))
-			metric.AddValue("messages_failed", 0)
-
-			w.writeFunction(messagesToSend, &metric)
-
-			monitoring.Send(metric)
+			w.writeBatch(w.messageBuffer.PopMultiple(100))
 		}
 	}
+}
+
+func (w *KafkaWriter) writeBatch(messagesToSend []kafka.Message) {
+	if len(messagesToSend) == 0 {
+		return
+	}
+
+	metric := w.newMetric(KAFKAWRITER)
+	metric.AddValue("messages_sent", len(messagesToSend))
+	metric.AddValue("messages_failed", 0)
+
+	w.writeFunction(messagesToSend, &metric)
+
+	monitoring.Send(metric)
 }
 
 func (w *KafkaWriter) batchingLoop() {
